@@ -189,6 +189,7 @@ func (s *supervisor) State() ConnState {
 // only transition out of NotConnected is evTCPUp itself, so the CAS always succeeds in practice).
 func (s *supervisor) CommitConnected() (committed bool) {
 	if s.state.CompareAndSwap(uint32(NotConnectedState), uint32(NotSelectedState)) {
+		vgate("sup.commit.cas")
 		s.inject(evTCPUp)
 
 		return true
@@ -206,6 +207,7 @@ func (s *supervisor) CommitConnected() (committed bool) {
 // Selected is a no-op returning false.
 func (s *supervisor) CommitSelected() (committed bool) {
 	if s.state.CompareAndSwap(uint32(NotSelectedState), uint32(SelectedState)) {
+		vgate("sup.commit.cas")
 		s.inject(evSelectAccepted)
 
 		return true
@@ -226,6 +228,7 @@ func (s *supervisor) CommitSelected() (committed bool) {
 // whether THIS call performed the commit; a call when not Selected is a no-op returning false.
 func (s *supervisor) CommitSelectLost() (committed bool) {
 	if s.state.CompareAndSwap(uint32(SelectedState), uint32(NotSelectedState)) {
+		vgate("sup.commit.cas")
 		s.inject(evSelectLost)
 
 		return true
